@@ -191,4 +191,12 @@ def ptr_len_ok(f, parg, narg, ptr_param, layout_param, valarg):
         src = list(operand_locals(d[0][2].args[0]))
         if src and strip_reborrow(f, src[0])[-1] == layout_param:
             return True, "ok"
+    # the same value read back from a record built in this view (`RegionLayout { data_len: layout.size(), .. }`
+    # then `self.data_len`): the expression tree resolves fields of struct literals to their operands
+    from ..expr import expr_of_operand
+    e = expr_of_operand(f, narg)
+    if e is not None and e.k == "call" and e.a.path in ("std::alloc::Layout::size", "core::alloc::Layout::size"):
+        src = list(operand_locals(e.a.args[0]))
+        if src and cm.view_info(e.a.fn, src[0])[0] == layout_param and e.a.fn is f:
+            return True, "ok"
     return False, "length is not Layout::size(layout)"
